@@ -68,7 +68,8 @@ def run_case(ctx, case_seed, i, counters=None, replaying=False):
   rng = random.Random(case_seed)
   feats = features_for(i, rng)
   prog = progen.generate(rng, feats)
-  text, _ = printer.program_text(prog)
+  # every second program is printed with minimal parentheses (operator precedence is then the parser's)
+  text, _ = printer.program_text(prog, printer.Policy(defaults={'parens': 'min' if i % 2 else 'full'}))
   ctx.journal({'case_seed': case_seed, 'i': i, 'program': text})
   ctx.count('programs')
   if not pipeline._memo['on']:
